@@ -1,4 +1,251 @@
-import MidiModel.Live
+import Proofs.LiveInv
+import Proofs.LiveRules
+/-!
+# C06 — the live decoder survives arbitrary bytes and follows the MIDI 1.0 receiver rules
+
+Model: `MidiModel/Live.lean` — `step`/`stepTok`/`feed` = `drivers.Reader.eachByte` over a token stream (a byte,
+or a clock tick = the start of a new `EachMessage` call, so every chunking is a token stream), `keep` = the
+option filter of the `testdrv` in-port, `retype` = the `onMsg` closure of `midi.ListenTo`, `listen` = what the
+listener receives (`none` in the first component = `retype` hit an index / constructor panic).
+All theorems hold for every configuration (sysex on/off, `buf = 0` → 1024, `buf = 1, 2, …`, active sense and
+time code on/off) and every token stream; bytes are arbitrary naturals (everything `≥ 0xF8` is the real-time
+class). The rules are stated for `step` from ANY state satisfying the invariant `Inv` (every reachable state
+does: `inv_init`, `inv_stepTok`, `inv_feed`), several even from any state whatsoever.
+The resynchronisation theorem is in `Props/C06_Resync.lean`.
+Helper lemmas: `Proofs/LiveInv.lean`, `Proofs/LiveRules.lean`.
+-/
 namespace Midi.C06
-theorem placeholder : True := trivial
+open Midi Midi.Live
+
+/-! ## the predicates used below, spelled out -/
+
+/-- `WellFormedMsg c m`: channel voice with two data bytes (8x 9x Ax Bx Ex) / with one (Cx Dx); F1 d; F2 d d;
+    F3 d; F6; a single real-time byte; a sysex `F0 data… F7` that fits the configured buffer. Data `< 0x80`. -/
+theorem wellFormedMsg_def (c : Cfg) (m : Bytes) : WellFormedMsg c m ↔
+    ((∃ st d1 d2, m = [st, d1, d2] ∧ ((0x80 ≤ st ∧ st ≤ 0xBF) ∨ (0xE0 ≤ st ∧ st ≤ 0xEF)) ∧ d1 < 0x80 ∧ d2 < 0x80) ∨
+     (∃ st d, m = [st, d] ∧ 0xC0 ≤ st ∧ st ≤ 0xDF ∧ d < 0x80) ∨
+     (∃ d, m = [0xF1, d] ∧ d < 0x80) ∨
+     (∃ d1 d2, m = [0xF2, d1, d2] ∧ d1 < 0x80 ∧ d2 < 0x80) ∨
+     (∃ d, m = [0xF3, d] ∧ d < 0x80) ∨
+     m = [0xF6] ∨
+     (∃ b, m = [b] ∧ 0xF8 ≤ b) ∨
+     (∃ d, m = 0xF0 :: (d ++ [0xF7]) ∧ (∀ x ∈ d, x < 0x80) ∧ m.length ≤ c.bufSize)) := Iff.rfl
+
+/-- the invariant of the decoder state -/
+theorem inv_def (c : Cfg) (s : St) : Inv c s ↔
+    ((s.status ≠ 0 → s.typ = s.status / 16 ∧ 0x80 ≤ s.status ∧ s.status ≤ 0xEF) ∧
+     (s.mode = .chan → s.status ≠ 0) ∧
+     (s.mode = .sysc → s.typ = 0xF1 ∨ s.typ = 0xF2 ∨ s.typ = 0xF3) ∧
+     (∀ x, s.pend = some x → x < 0x80) ∧
+     (s.pend ≠ none → s.mode = .chan ∨ s.mode = .sysc) ∧
+     (s.mode = .sysex →
+        s.sx = [] ∨ ∃ d, s.sx = 0xF0 :: d ∧ (∀ x ∈ d, x < 0x80) ∧ s.sx.length ≤ c.bufSize) ∧
+     (s.mode ≠ .sysex → s.sx = []) ∧
+     s.panicked = false) :=
+  ⟨fun ⟨a, b, c, d, e, f, g, h⟩ => ⟨a, b, c, d, e, f, g, h⟩, fun ⟨a, b, c, d, e, f, g, h⟩ => ⟨a, b, c, d, e, f, g, h⟩⟩
+
+theorem inv_init (c : Cfg) : Inv c init := init_inv c
+
+theorem inv_stepTok (c : Cfg) (s : St) (t : Tok) (h : Inv c s) : Inv c (stepTok c s t).1 := (stepTok_inv c s t h).1
+
+theorem inv_feed (c : Cfg) (s : St) (toks : List Tok) (h : Inv c s) : Inv c (feed c s toks).1 :=
+  (feed_inv c toks s h).1
+
+/-! ## no panic -/
+
+/-- From ANY state satisfying the invariant, on every token stream: neither `panic` branch of the decoder is
+    reached, and `retype` never hits its index / constructor panic on a frame the decoder hands on. -/
+theorem live_total_from (c : Cfg) (s : St) (toks : List Tok) (h : Inv c s) :
+    (feed c s toks).1.panicked = false ∧ ∀ m ∈ listenFrames c (feed c s toks).2, m.1 ≠ none := by
+  refine ⟨(feed_inv c toks s h).1.no_panic, fun m hm => ?_⟩
+  obtain ⟨bs, hbs, _⟩ := listenFrames_wf c _ (feed_inv c toks s h).2 m hm
+  rw [hbs]; simp
+
+/-- every byte stream, every chunking, every configuration, from `Reset()` -/
+theorem live_total (c : Cfg) (toks : List Tok) :
+    (feed c init toks).1.panicked = false ∧ ∀ m ∈ listen c toks, m.1 ≠ none :=
+  live_total_from c init toks (init_inv c)
+
+/-! ## every delivered message is well formed -/
+
+theorem delivered_wf_from (c : Cfg) (s : St) (toks : List Tok) (h : Inv c s) :
+    ∀ m ∈ listenFrames c (feed c s toks).2, ∃ bs, m.1 = some bs ∧ WellFormedMsg c bs :=
+  listenFrames_wf c _ (feed_inv c toks s h).2
+
+theorem delivered_wf (c : Cfg) (toks : List Tok) :
+    ∀ m ∈ listen c toks, ∃ bs, m.1 = some bs ∧ WellFormedMsg c bs :=
+  delivered_wf_from c init toks (init_inv c)
+
+/-- in particular: non-empty, the first byte is a status byte, every further byte of a non-sysex message is data -/
+theorem delivered_status_first (c : Cfg) (toks : List Tok) :
+    ∀ m ∈ listen c toks, ∃ st rest, m.1 = some (st :: rest) ∧ 0x80 ≤ st ∧
+      (st ≠ 0xF0 → ∀ d ∈ rest, d < 0x80) := by
+  intro m hm
+  obtain ⟨bs, hbs, hw⟩ := delivered_wf c toks m hm
+  rcases hw with ⟨st, d1, d2, rfl, hs, h1, h2⟩ | ⟨st, d, rfl, hs1, hs2, h1⟩ | ⟨d, rfl, h1⟩ | ⟨d1, d2, rfl, h1, h2⟩ |
+      ⟨d, rfl, h1⟩ | rfl | ⟨b, rfl, hb⟩ | ⟨d, rfl, hd, _⟩
+  · exact ⟨st, _, hbs, by omega, fun _ x hx => by simp at hx; omega⟩
+  · exact ⟨st, _, hbs, by omega, fun _ x hx => by simp at hx; omega⟩
+  · exact ⟨_, _, hbs, by omega, fun _ x hx => by simp at hx; omega⟩
+  · exact ⟨_, _, hbs, by omega, fun _ x hx => by simp at hx; omega⟩
+  · exact ⟨_, _, hbs, by omega, fun _ x hx => by simp at hx; omega⟩
+  · exact ⟨_, _, hbs, by omega, fun _ x hx => by simp at hx⟩
+  · exact ⟨b, _, hbs, by omega, fun _ x hx => by simp at hx⟩
+  · exact ⟨_, _, hbs, by omega, fun h => absurd rfl h⟩
+
+/-- if the input consists of bytes (`< 256`; the model's alphabet is all naturals), so does every message -/
+theorem delivered_bytes (c : Cfg) (toks : List Tok) (hb : ∀ b, Tok.byte b ∈ toks → b < 256) :
+    ∀ m ∈ listen c toks, ∀ bs, m.1 = some bs → ∀ x ∈ bs, x < 256 :=
+  listen_bytes c toks init (init_inv c) hb
+
+/-! ## the receiver rules -/
+
+/-- A status byte `0x80..0xF6` (everything but real-time and the sysex terminator) abandons whatever was in
+    progress: the decoder behaves exactly as if it had been idle without running status (`St.abandon`: clean
+    mode, no status, no pending data byte, no sysex buffer). -/
+theorem new_status_abandons (c : Cfg) (s : St) (b : Nat) (h : Inv c s) (hlo : 0x80 ≤ b) (hhi : b ≤ 0xF6) :
+    step c s b = cleanState { s with mode := .clean, status := 0, pend := none, sx := [] } b :=
+  step_status c s b h hlo hhi
+
+/-- … hence the frames emitted and the resulting control state do not depend on the previous pending
+    message / mode / running status / sysex buffer: two states at the same clock give the same frames, mode,
+    running status, pending byte and sysex buffer (`typ` / the sysex time stamp wherever they are live). -/
+theorem new_status_independent (c : Cfg) (s1 s2 : St) (b : Nat) (h1 : Inv c s1) (h2 : Inv c s2)
+    (hlo : 0x80 ≤ b) (hhi : b ≤ 0xF6) (hts : s1.ts = s2.ts) :
+    (step c s1 b).2 = (step c s2 b).2 ∧
+    (step c s1 b).1.mode = (step c s2 b).1.mode ∧
+    (step c s1 b).1.status = (step c s2 b).1.status ∧
+    (step c s1 b).1.pend = (step c s2 b).1.pend ∧
+    (step c s1 b).1.sx = (step c s2 b).1.sx ∧
+    (step c s1 b).1.ts = (step c s2 b).1.ts ∧
+    ((step c s1 b).1.mode = .chan ∨ (step c s1 b).1.mode = .sysc → (step c s1 b).1.typ = (step c s2 b).1.typ) ∧
+    ((step c s1 b).1.mode = .sysex → (step c s1 b).1.sxTs = (step c s2 b).1.sxTs) := by
+  rw [step_status c s1 b h1 hlo hhi, step_status c s2 b h2 hlo hhi]
+  exact cleanState_abandon_indep s1 s2 b hlo hhi hts
+
+/-- the pending first data byte of an interrupted message is never delivered: the only frame a status byte
+    can emit is the tune request itself -/
+theorem new_status_frames (c : Cfg) (s : St) (b : Nat) (h : Inv c s) (hlo : 0x80 ≤ b) (hhi : b ≤ 0xF6) :
+    (step c s b).2 = if b = 0xF6 then [([0xF6, 0, 0], s.ts)] else [] := by
+  rw [step_status c s b h hlo hhi]
+  unfold cleanState St.abandon
+  by_cases h0 : b = 0xF0
+  · simp only [if_pos h0]; rw [if_neg (by omega)]
+  · have h7 : ¬ b = 0xF7 := by omega
+    by_cases hs : 0xF0 < b ∧ b < 0xF7
+    · simp only [if_neg h0, if_neg h7, if_pos hs]
+      by_cases h13 : b = 0xF1 ∨ b = 0xF2 ∨ b = 0xF3
+      · simp only [if_pos h13]; rw [if_neg (by omega)]
+      · by_cases h6 : b = 0xF6
+        · simp only [if_neg h13, if_pos h6]
+        · simp only [if_neg h13, if_neg h6]
+    · have hc : 0x80 ≤ b ∧ b ≤ 0xEF := by omega
+      simp only [if_neg h0, if_neg h7, if_neg hs, if_pos hc]; rw [if_neg (by omega)]
+
+/-- a data byte without (running) status is ignored: no frame, state unchanged -/
+theorem data_without_status_ignored (c : Cfg) (s : St) (b : Nat) (hm : s.mode = .clean) (hs : s.status = 0)
+    (hb : b < 0x80) : step c s b = (s, []) :=
+  step_data_no_status c s b hm hs hb
+
+/-- … for a whole run of data bytes, with real-time bytes and chunk boundaries anywhere in between: only the
+    real-time bytes are handed on, the decoder stays idle without running status -/
+theorem data_without_status_ignored_feed (c : Cfg) (s : St) (body : List Tok) (hm : s.mode = .clean)
+    (hs : s.status = 0) (hbody : ∀ t ∈ body, NonStatusTok t) :
+    (feed c s body).2.map Prod.fst = (rtBytes body).map (fun r => [r]) ∧
+    (feed c s body).1.mode = .clean ∧ (feed c s body).1.status = 0 ∧ (feed c s body).1.pend = s.pend := by
+  obtain ⟨a, b, d, e⟩ := feed_no_status_body c body s hbody hm hs
+  exact ⟨e, a, b, d⟩
+
+/-- the undefined status bytes F4 / F5 (from any state whatsoever) produce nothing, cancel running status,
+    and all data bytes that follow are ignored (real-time bytes and chunk boundaries anywhere in between: only
+    the real-time bytes are handed on); the next status byte is handled by `new_status_abandons` -/
+theorem undefined_status_skipped (c : Cfg) (s : St) (b : Nat) (body : List Tok) (hb : b = 0xF4 ∨ b = 0xF5)
+    (hbody : ∀ t ∈ body, NonStatusTok t) :
+    (feed c s (.byte b :: body)).2.map Prod.fst = (rtBytes body).map (fun r => [r]) ∧
+    (feed c s (.byte b :: body)).1.mode = .unknown ∧ (feed c s (.byte b :: body)).1.status = 0 ∧
+    (feed c s (.byte b :: body)).1.pend = none := by
+  obtain ⟨hf, hm, hst, hp⟩ := step_undefined c s b hb
+  obtain ⟨a, b', d, e⟩ := feed_unknown_body c body (step c s b).1 hbody hm
+  simp only [feed, stepTok, hf, List.nil_append]
+  exact ⟨e, a, by rw [b', hst], by rw [d, hp]⟩
+
+/-- in a state waiting after F4 / F5 a data byte changes nothing -/
+theorem undefined_status_data (c : Cfg) (s : St) (d : Nat) (hm : s.mode = .unknown) (hd : d < 0x80) :
+    step c s d = (s, []) := step_unknown_data c s d hm hd
+
+/-- A sysex whose total length (`F0`, data bytes, `F7`) exceeds the buffer size is never delivered — from any
+    state whatsoever, with real-time bytes and chunk boundaries anywhere inside: the only frames are the
+    interleaved real-time bytes, and the decoder is idle afterwards. -/
+theorem oversize_sysex_dropped (c : Cfg) (s : St) (body : List Tok) (hbody : ∀ t ∈ body, NonStatusTok t)
+    (hover : c.bufSize < dataCount body + 2) :
+    (feed c s (.byte 0xF0 :: body ++ [.byte 0xF7])).2.map Prod.fst = (rtBytes body).map (fun r => [r]) ∧
+    (feed c s (.byte 0xF0 :: body ++ [.byte 0xF7])).1.mode = .clean ∧
+    (feed c s (.byte 0xF0 :: body ++ [.byte 0xF7])).1.sx = [] :=
+  feed_oversize_sysex c s body hbody hover
+
+/-- a byte `≥ 0xF8` is handed on immediately as a one-byte message (the listener gets exactly that byte) and
+    leaves the decoder state untouched -/
+theorem realtime_transparent (c : Cfg) (s : St) (b : Nat) (hb : 0xF8 ≤ b) :
+    step c s b = (s, [([b], s.ts)]) ∧ retype [b] = some (some [b]) :=
+  ⟨step_rt c s b hb, retype_rt b [] hb⟩
+
+/-- … anywhere in a stream: the other frames and the final state are those of the stream without it -/
+theorem realtime_transparent_feed (c : Cfg) (s : St) (xs ys : List Tok) (b : Nat) (hb : 0xF8 ≤ b) :
+    feed c s (xs ++ .byte b :: ys) =
+      ((feed c s (xs ++ ys)).1,
+       (feed c s xs).2 ++ ([b], (feed c s xs).1.ts) :: (feed c (feed c s xs).1 ys).2) := by
+  simp only [feed_append, feed, stepTok, step_rt c _ b hb, List.cons_append, List.nil_append]
+
+/-! ## non-vacuity: concrete instances (evaluated by the kernel) -/
+
+/-- a sample configuration: sysex on, buffer of 4 bytes -/
+def cfg4 : Cfg := ⟨true, 4, true, true⟩
+
+def bytes (l : List Nat) : List Tok := l.map .byte
+
+-- garbage, an interrupted note-on, running status, real time inside a message, a lone F7, F4 + data:
+example : listen cfg4 (bytes [0x40, 0x90, 0x3C, 0x91, 0x3D, 0xF8, 0x40, 0x3E, 0x41, 0xF7, 0xF4, 0x01, 0xC2, 0x05]) =
+    [(some [0xF8], 0), (some [0x91, 0x3D, 0x40], 0), (some [0x91, 0x3E, 0x41], 0), (some [0xC2, 0x05], 0)] := by
+  decide
+example : (feed cfg4 init (bytes [0x40, 0x90, 0x3C, 0x91, 0x3D, 0xF8, 0x40])).1.panicked = false := by decide
+example : WellFormedMsg cfg4 [0x91, 0x3D, 0x40] := Or.inl ⟨0x91, 0x3D, 0x40, rfl, by omega, by omega, by omega⟩
+example : WellFormedMsg cfg4 [0xF0, 1, 2, 0xF7] :=
+  Or.inr (Or.inr (Or.inr (Or.inr (Or.inr (Or.inr (Or.inr ⟨[1, 2], rfl, by decide, by decide⟩))))))
+example : ¬ WellFormedMsg cfg4 [] := by simp [WellFormedMsg]
+-- a state in the middle of a note-on satisfies the invariant, and 0x91 abandons the pending 0x3C
+example : Inv cfg4 (feed cfg4 init (bytes [0x90, 0x3C])).1 := inv_feed cfg4 init _ (inv_init cfg4)
+example : (feed cfg4 init (bytes [0x90, 0x3C])).1.pend = some 0x3C ∧
+    step cfg4 (feed cfg4 init (bytes [0x90, 0x3C])).1 0x91 =
+      ({ mode := .chan, status := 0x91, typ := 9, pend := none }, []) := by decide
+-- data without status
+example : step cfg4 init 0x40 = (init, []) := data_without_status_ignored cfg4 init 0x40 rfl rfl (by omega)
+-- F4 then data, then a message
+example : (feed cfg4 init (bytes [0x90, 0xF4, 0x01, 0x02, 0x03, 0xB0, 0x07, 0x64])).2 = [([0xB0, 0x07, 0x64], 0)] := by
+  decide
+-- buffer of 4: `F0 01 02 F7` fits, `F0 01 02 03 F7` does not (real-time FE in between is delivered)
+example : listen cfg4 (bytes [0xF0, 1, 2, 0xF7]) = [(some [0xF0, 1, 2, 0xF7], 0)] := by decide
+example : listen cfg4 (bytes [0xF0, 1, 2, 0xFE, 3, 0xF7]) = [(some [0xFE], 0)] := by decide
+example : (∀ t ∈ bytes [1, 2, 0xFE, 3], NonStatusTok t) ∧ cfg4.bufSize < dataCount (bytes [1, 2, 0xFE, 3]) + 2 := by
+  refine ⟨fun t ht => ?_, by decide⟩
+  simp only [bytes, List.map_cons, List.map_nil, List.mem_cons, List.not_mem_nil, or_false] at ht
+  rcases ht with rfl | rfl | rfl | rfl <;> simp [NonStatusTok]
+-- default buffer (buf = 0 → 1024) and the smallest ones
+example : (⟨true, 0, true, true⟩ : Cfg).bufSize = 1024 := by decide
+example : listen ⟨true, 1, true, true⟩ (bytes [0xF0, 0xF7, 0x90, 1, 2]) = [(some [0x90, 1, 2], 0)] := by decide
+example : listen ⟨true, 2, true, true⟩ (bytes [0xF0, 0xF7, 0xF0, 1, 0xF7]) = [(some [0xF0, 0xF7], 0)] := by decide
+-- `delivered_bytes`: a stream of bytes
+example : ∀ b, Tok.byte b ∈ bytes [0x90, 0x3C, 0xFF] → b < 256 := by
+  intro b hb
+  simp only [bytes, List.map_cons, List.map_nil, List.mem_cons, Tok.byte.injEq, List.not_mem_nil, or_false] at hb
+  omega
+-- `undefined_status_skipped` / `data_without_status_ignored_feed`: data, real time and a tick in between
+example : (∀ t ∈ [Tok.byte 1, .tick 3, .byte 0xF8, .byte 2], NonStatusTok t) ∧
+    (feed cfg4 init (.byte 0xF5 :: [Tok.byte 1, .tick 3, .byte 0xF8, .byte 2])).2 = [([0xF8], 3)] := by
+  refine ⟨fun t ht => ?_, by decide⟩
+  simp only [List.mem_cons, List.not_mem_nil, or_false] at ht
+  rcases ht with rfl | rfl | rfl | rfl <;> simp [NonStatusTok]
+-- real time
+example : step cfg4 (feed cfg4 init (bytes [0x90, 0x3C])).1 0xF8 =
+    ((feed cfg4 init (bytes [0x90, 0x3C])).1, [([0xF8], 0)]) := (realtime_transparent cfg4 _ 0xF8 (by omega)).1
+
 end Midi.C06
